@@ -48,6 +48,36 @@ pub proof fn at_most_one_endpoint_serves<C: ServerContext>(n: HttpRouterNode<C>,
     if j < i { assert(in_range(hs[j].versions, v) && in_range(hs[i].versions, v)); assert(shared(hs[j].versions, hs[i].versions)); }
 }
 
+
+/// C03: "Consequently no path segment delivered to a handler as a variable value is ever '.', '..' or the empty string"
+pub open spec fn value_ok(v: VarSpec) -> bool {
+    match v { VarSpec::Str(s) => good_segment(s), VarSpec::Comps(c) => forall|i: int| 0 <= i < c.len() ==> good_segment(#[trigger] c[i]) }
+}
+pub open spec fn values_ok(m: Map<String, VarSpec>) -> bool { forall|k: String| #[trigger] m.contains_key(k) ==> value_ok(m[k]) }
+/// the walk binds nothing but request segments
+pub proof fn walk_binds_only_request_segments<C: ServerContext>(n: HttpRouterNode<C>, segs: Seq<String>, vars: Map<String, VarSpec>)
+    requires values_ok(vars), forall|i: int| 0 <= i < segs.len() ==> good_segment(#[trigger] segs[i])
+    ensures
+        walk_to(n, segs, vars) is Some ==> values_ok(walk_to(n, segs, vars)->Some_0.1)
+            && values_ok(end_step(walk_to(n, segs, vars)->Some_0.0, walk_to(n, segs, vars)->Some_0.1).1), // @variables_are_bound_to_request_segments_only
+    decreases segs.len(), n
+{
+    if segs.len() > 0 {
+        let rest = segs.skip(1);
+        assert(forall|i: int| 0 <= i < rest.len() ==> good_segment(#[trigger] rest[i]));
+        match n.edges {
+            None => {},
+            Some(HttpRouterEdges::Literals(m)) => { if m@.contains_key(segs[0]) { walk_binds_only_request_segments(*m@[segs[0]], rest, vars); } },
+            Some(HttpRouterEdges::VariableSingle(name, child)) => {
+                walk_binds_only_request_segments(*child, rest, vars.insert(name, VarSpec::Str(segs[0])));
+            },
+            Some(HttpRouterEdges::VariableRest(name, child)) => {
+                assert(seq![segs[0]] + rest =~= segs);
+            },
+        }
+    }
+}
+
 proof fn sentinel_v10_prelude_consistent()
     ensures false
 {
